@@ -29,6 +29,8 @@ func parseOpts(s string) SysOpts {
 			o.BoltSync = true
 		case f == "skew":
 			o.Skew = true
+		case f == "freshmeta":
+			o.FreshMeta = true
 		case strings.HasPrefix(f, "metalimit="):
 			o.MetaLimit, _ = strconv.Atoi(f[len("metalimit="):])
 		case strings.HasPrefix(f, "bases="):
@@ -44,6 +46,8 @@ func parseKeyModes(s string) []int {
 		return []int{1}
 	case "both":
 		return []int{0, 1}
+	case "rich2":
+		return []int{2}
 	}
 	return []int{0}
 }
